@@ -112,8 +112,6 @@ type recRecord struct {
 	RuleIDs   []int
 }
 
-var recWriters []*recWriter
-
 func (w *recWriter) Init(c plugintypes.AuditLogConfig) error {
 	w.formatter = c.Formatter
 	return nil
@@ -145,11 +143,10 @@ func (w *recWriter) Write(al plugintypes.AuditLog) error {
 func (w *recWriter) Close() error { return nil }
 
 func init() {
-	plugins.RegisterAuditLogWriter("verifrec", func() plugintypes.AuditLogWriter {
-		w := &recWriter{}
-		recWriters = append(recWriters, w)
-		return w
-	})
+	// no global registry of instances: the writer of a WAF is reached through
+	// a transaction (Transaction.WAF.AuditLogWriter()), so that concurrent
+	// builds in simulated tasks share nothing inside the harness
+	plugins.RegisterAuditLogWriter("verifrec", func() plugintypes.AuditLogWriter { return &recWriter{} })
 }
 
 // wafHandle bundles a WAF with the observers attached to it.
@@ -161,7 +158,7 @@ type wafHandle struct {
 	WAF        coraza.WAF
 	ErrCB    []cbRec      // error callback invocations
 	DebugBuf bytes.Buffer // debug log at Error level
-	Rec      *recWriter   // non-nil when the configuration uses SecAuditLogType verifrec
+	Rec      *recWriter   // set by runTx when the configuration uses SecAuditLogType verifrec
 }
 
 type cbRec struct {
@@ -189,7 +186,6 @@ func buildWAF(directives string) (h *wafHandle, err error) {
 			err = fmt.Errorf("PANIC in NewWAF: %v", r)
 		}
 	}()
-	before := len(recWriters)
 	cfg := coraza.NewWAFConfig().
 		WithDirectives(directives).
 		WithErrorCallback(func(mr types.MatchedRule) {
@@ -201,14 +197,9 @@ func buildWAF(directives string) (h *wafHandle, err error) {
 		WithDebugLogger(debuglog.Default().WithOutput(&h.DebugBuf).WithLevel(debugLevel))
 	w, err := coraza.NewWAF(cfg)
 	if err != nil {
-		recWriters = recWriters[:before]
 		return nil, err
 	}
 	h.WAF = w
-	if len(recWriters) > before {
-		h.Rec = recWriters[len(recWriters)-1]
-	}
-	recWriters = recWriters[:before]
 	return h, nil
 }
 
